@@ -1,4 +1,4 @@
-// integer-vector indexing of rank-3 views, patterns starting with an index vector (see drv_views_idx.h)
-#define IX_FIRST_MASK 0x20
+// integer-vector indexing of rank-3 views, patterns starting with an index vector or a vector expression (see drv_views_idx.h)
+#define IX_FIRST_MASK 0xf20
 #include "drv_views_idx.h"
 std::string ix_op3_vec_first(Array<3,int>& a, const std::vector<ISel>& t) { return ix_go<3>(a, t); }
